@@ -209,6 +209,7 @@ pub fn run(tier: Tier) -> Report {
     let mut rep = Report::new("C03", tier, "model_checking");
     let k = tier.pick(6, 7);
     let (km, k1, k2) = tier.pick((3, 3, 2), (4, 3, 3));
+    let loop_len = tier.pick(4usize, 5usize);
     let n = crate::par::nthreads();
     let accs = crate::par::run(
         n,
@@ -219,6 +220,8 @@ pub fn run(tier: Tier) -> Report {
             for g in stress() {
                 push(g);
             }
+            crate::fam::nested_words(&mut |g| push(g));
+            crate::fam::loop_segments(&["a", "b", "d"], loop_len, &mut |g| push(g));
             crate::fam::with_defs(km, k1, k2, &mut |g| push(g));
             for n in 2..=5 {
                 crate::fam::def_dags(n, &mut |g| push(g));
@@ -229,7 +232,7 @@ pub fn run(tier: Tier) -> Report {
         |acc, g| work(acc, g, Shell::Bash),
     );
     // supplementary seeded random tier of larger trees (can only add violations)
-    let n_random = tier.pick(150_000usize, 3_000_000usize);
+    let n_random = if std::env::var("NO_RANDOM").is_ok() { 0 } else { tier.pick(150_000usize, 3_000_000usize) };
     let seed = crate::report::seed();
     let raccs = crate::par::run(
         n,
@@ -288,7 +291,7 @@ pub fn run(tier: Tier) -> Report {
     rep.cov(
         "rule",
         J::s(format!(
-            "exhaustive: the C02 family (all trees <= {k} nodes over V0 as `cmd E`, the definition family, the corpus) plus hand-listed all-accepting/optional-chain shapes, compiled for bash (minimisation is shell-independent apart from command labels). For each main automaton and each within-word automaton rebuilt raw from its regex: (a) complete product raw x minimized over the shared input alphabet, (b) forward/backward reachability of every minimized state, (c) Moore partition refinement of the minimized automaton must end in singletons and its size must equal the harness's own minimisation of the raw automaton. states/transitions = product states/edges of (a)."
+            "exhaustive: the C02 family (all trees <= {k} nodes over V0 as `cmd E`, the definition family, the corpus) plus hand-listed all-accepting/optional-chain shapes, nested within-word juxtapositions, and every repeated loop `cmd (S1 .. Sn)...;` of n <= {loop_len} segments from a 24-entry menu of literals, optional literals, optional runs and optional run-or-literal choices over {{a, b, d}}, compiled for bash (minimisation is shell-independent apart from command labels). For each main automaton and each within-word automaton rebuilt raw from its regex: (a) complete product raw x minimized over the shared input alphabet, (b) forward/backward reachability of every minimized state, (c) Moore partition refinement of the minimized automaton must end in singletons and its size must equal the harness's own minimisation of the raw automaton. states/transitions = product states/edges of (a)."
         )),
     );
     rep.cov("exhaustive", J::Bool(true));
